@@ -10,6 +10,7 @@ notes = {
  # seeds written against a clause that the property's own check does not claim (DESIGN.md section 4, C16):
  # "afterwards the package builds and its tests pass" is answered by the checks of the compiler properties
  "C16-r3-mut1": "miscompiles `for v = range g` (C06's clause); C16's check does not claim 'tests pass afterwards'",
+ "C08-r5-mut2": "changes stack depth only (values and order unchanged): C17's clause, written against C08 by the sub-agent",
  "C16-r3-mut2": "miscompiles break/continue after a closure (C01/C13's clause); C16's check does not claim 'tests pass afterwards'",
 }
 out = ["# Which checks catch which seeded change", "",
